@@ -549,6 +549,9 @@ var (
 func init() {
 	VerifHook = func(name string) {
 		if name != "snapshot.start" {
+			if h := simImgHook; h != nil {
+				h(name)
+			}
 			return
 		}
 		simGateMu.Lock()
